@@ -229,6 +229,23 @@ def classifier_clause(model, rep, funcs):
         ok = n_ok and MI_.has("KMeans(n_clusters=n_clusters, random_state=seed, ...)") and MI_.has("PCA(n_components=n_components)")
         rep.ob("SLOT", i.anchor, "number of images is the first axis of the stack; k-means is seeded from the seed argument", ok, "", node=i.node, fn=i,
                clause="classifier", stmt="def __init__ (PcaClassifier)")
+        # the stored stack is the raw stack: the mask enters once, in _image_flat(mask=True) - a stack that is pre-multiplied here is decomposed as stack * mask**2
+        h_ = funcs.get(C + "_image_flat")
+        fields_ = set()
+        if h_ is not None:
+            for x in ast.walk(h_.node):
+                if isinstance(x, ast.BinOp) and isinstance(x.op, ast.Mult):
+                    for side in (x.left, x.right):
+                        if isinstance(side, ast.Attribute) and norm_src(side.value) == "self":
+                            fields_.add(side.attr)
+        for st_ in ast.walk(i.node):
+            if isinstance(st_, ast.Assign) and len(st_.targets) == 1 and isinstance(st_.targets[0], ast.Attribute) and norm_src(st_.targets[0].value) == "self" and \
+                    st_.targets[0].attr in fields_ and "image_stack" in {x.id for x in ast.walk(MI_.expr(st_.value)) if isinstance(x, ast.Name)}:
+                prod = [x for x in ast.walk(MI_.expr(st_.value)) if isinstance(x, ast.BinOp) and isinstance(x.op, (ast.Mult, ast.Add, ast.Sub, ast.Div))]
+                rep.instance("SLOT.pca", i.loc(st_))
+                rep.ob("SLOT", i.anchor, "the classifier stores the image stack as given; the mask is applied once, when the stack is flattened", not prod,
+                       f"`{norm_src(st_)[:70]}`: with `_image_flat(mask=True)` multiplying again, the decomposed data is stack * mask**2 (differs from the exact SVD of "
+                       f"the masked data for any soft-edged mask)", node=st_, fn=i, clause="classifier")
 
 
 def labels_clause(model, rep, funcs):
